@@ -77,7 +77,7 @@ pub enum Out {
     AddedParked,
     AlreadyPending,
     AlreadyParked,
-    FailedChecks,
+    FailedChecks(&'static str),
     FailedInsertion(String),
     Removed(ReasonView),
     InternalError,
@@ -90,7 +90,7 @@ impl Out {
             Out::AddedParked => "added-parked".into(),
             Out::AlreadyPending => "already-pending".into(),
             Out::AlreadyParked => "already-parked".into(),
-            Out::FailedChecks => "failed-checks".into(),
+            Out::FailedChecks(why) => format!("failed-checks-{why}"),
             Out::FailedInsertion(e) => format!("failed-insertion-{e}"),
             Out::Removed(r) => format!("removed-{}", r.name()),
             Out::InternalError => "internal-error".into(),
